@@ -740,7 +740,7 @@ def canonical_accumulations(stmts: list[ast.stmt]) -> list[ast.stmt]:
                         body = _subst_leading_assigns(g_[1])
                     if len(body) == 1 and isinstance(body[0], ast.Assign) and len(body[0].targets) == 1 and isinstance(body[0].targets[0], ast.Subscript) \
                             and isinstance(body[0].targets[0].value, ast.Name) and body[0].targets[0].value.id == tgt.id \
-                            and tgt.id not in {n.id for n in ast.walk(body[0].value) if isinstance(n, ast.Name)}:
+                            and tgt.id not in {n.id for x_ in [body[0].value, body[0].targets[0].slice, lp.iter, *conds] for n in ast.walk(x_) if isinstance(n, ast.Name)}:
                         comp = ast.DictComp(key=body[0].targets[0].slice, value=body[0].value, generators=[ast.comprehension(target=lp.target, iter=lp.iter, ifs=conds, is_async=0)])
                         new = ast.Assign(targets=[ast.Name(id=tgt.id, ctx=ast.Store())], value=comp, lineno=st.lineno, col_offset=0)
                         ast.fix_missing_locations(new)
@@ -821,12 +821,19 @@ def _loop_to_comp(lp: ast.For, name: str, as_list: bool):
     if len(body) != 1:
         return None
     s = body[0]
+    # a guard (or element) that reads the accumulator itself — `if x not in seen: seen.append(x)` — depends on the
+    # elements collected so far: that loop is not a comprehension
+    reads_acc = lambda e: any(isinstance(n, ast.Name) and n.id == name for n in ast.walk(e))  # noqa: E731
+    if any(reads_acc(c) for c in conds) or reads_acc(lp.iter):
+        return None
     if as_list:
         if isinstance(s, ast.Expr) and isinstance(s.value, ast.Call) and norm(s.value.func) == f"{name}.append" and len(s.value.args) == 1:
             elt = s.value.args[0]
+            if reads_acc(elt):
+                return None
             return ast.ListComp(elt=elt, generators=[ast.comprehension(target=lp.target, iter=lp.iter, ifs=conds, is_async=0)])
         return None
-    if isinstance(s, ast.AugAssign) and isinstance(s.op, ast.Add) and isinstance(s.target, ast.Name) and s.target.id == name:
+    if isinstance(s, ast.AugAssign) and isinstance(s.op, ast.Add) and isinstance(s.target, ast.Name) and s.target.id == name and not reads_acc(s.value):
         comp = ast.ListComp(elt=s.value, generators=[ast.comprehension(target=lp.target, iter=lp.iter, ifs=conds, is_async=0)])
         return ast.Call(func=ast.Name(id="sum", ctx=ast.Load()), args=[comp], keywords=[])
     return None
